@@ -4,6 +4,8 @@ import os
 import sys
 
 sys.path.insert(0, os.path.join(os.path.dirname(os.path.abspath(__file__)), "..", "lib"))
+import enumlib  # noqa: E402
+import proxy_t2_common  # noqa: E402
 import sched  # noqa: E402
 import vlib  # noqa: E402
 import proxy_common  # noqa: E402
@@ -25,11 +27,25 @@ def main():
     total += 20
     summary, tot, samples, exh = sched.run_passes(rep, binary, passes, total)
     sched.sched_coverage(rep, summary, tot, samples, exh)
+    # tier 2: the real proxy with real pion clients in the same process
+    try:
+        eb = proxy_t2_common.build()
+        res = enumlib.run(eb, "TestVerifEnumC16T2", tier, 300 if tier == "quick" else 1500, nshards=12)
+        for f in res["findings"]:
+            rep.finding(f["sig"], f["msg"], {"input": f["input"], "kind": "real-proxy scenario (SnowflakeProxy.Start, scripted broker and relay on loopback, real pion clients)", "test": "TestVerifEnumC16T2"})
+        rep.coverage["real_proxy_tier2"] = {"scenarios": res["evaluations"], "sections": res["sections"], "completed": res["exhaustive"], "stop_reason": res.get("stop_reason"),
+                                            "note": "needs a network interface pion gathers candidates on; where in-process WebRTC does not connect the tier marks itself incomplete and judges nothing"}
+        rep.coverage["traces_validated_against_impl"] += res["evaluations"]
+        if not res["exhaustive"]:
+            rep.coverage["exhaustive"] = False
+    except vlib.EngineError as e:
+        rep.engine_errors.append(str(e))
     rep.assumptions += [
         "two build-time seams replace the pion-facing functions: makePeerConnectionFromOffer (fails, or returns a real unconnected PeerConnection and plays pion's OnDataChannel contract 'close(dataChan); go handler(conn, addr)' by script) and copyLoop (the session lasts 30 s of virtual time); the seam model is not yet bound to real pion by a tier-2 run",
         "Start()'s polling loop is copied verbatim (its preamble replaces the broker and probes the NAT type over the network)",
         "the broker is a scripted http.RoundTripper; the relay dial is refused by a recording NetDial",
         "virtual time",
+        "tier 2 runs in real time with real pion: its oracles are bytes, counts and 'the proxy polled again' within 90 s, believed only after three more runs; an environment without usable in-process WebRTC makes it incomplete, never failing",
     ]
     rep.finish()
 
